@@ -1852,7 +1852,8 @@ func clientWiring(c *Ctx, id string) {
 			newDcp = fn
 		}
 	}
-	c.need(start != nil && cl != nil && commit != nil && setMd != nil && newDcp != nil, id, "dcp.Start / close / Commit / SetMetadata / newDcp")
+	leStart, leStop := w.Method("stream", "leaderElection", "Start"), w.Method("stream", "leaderElection", "Stop")
+	c.need(start != nil && cl != nil && commit != nil && setMd != nil && newDcp != nil && leStart != nil && leStop != nil, id, "dcp.Start / close / Commit / SetMetadata / newDcp, leaderElection.Start / Stop")
 	type step struct {
 		fn     *ssa.Function
 		what   string
@@ -1880,6 +1881,10 @@ func clientWiring(c *Ctx, id string) {
 		{cl, "Client.Close", inv("Client", "Close"), nil},
 		{cl, "VBucketDiscovery.Close", inv("VBucketDiscovery", "Close"), nil},
 		{commit, "Stream.Save", inv("Stream", "Save"), nil},
+		{leStart, "rpc Server.Listen", inv("Server", "Listen"), nil},
+		{leStart, "LeaderElector.Run", inv("LeaderElector", "Run"), nil},
+		{leStop, "LeaderElector.Close", inv("LeaderElector", "Close"), nil},
+		{leStop, "rpc Server.Shutdown", inv("Server", "Shutdown"), nil},
 		{newDcp, "Client.Connect", inv("Client", "Connect"), nil},
 		{newDcp, "HTTPClient.Connect", inv("HTTPClient", "Connect"), nil},
 		{newDcp, "HTTPClient.GetVersion", inv("HTTPClient", "GetVersion"), nil},
@@ -2032,21 +2037,22 @@ func liveGuards(b *ssa.BasicBlock) []Guard {
 	var out []Guard
 	for _, g := range guardsOf(b) {
 		v, _ := stripNot(g.Cond, g.Branch)
-		if _, isErrTest := isNilCompare(v, func(x ssa.Value) bool { return types.Implements(x.Type(), errorIface()) }); isErrTest {
-			other := g.If.Block().Succs[0]
-			if g.Branch {
-				other = g.If.Block().Succs[1]
+		_, isErrTest := isNilCompare(v, func(x ssa.Value) bool { return types.Implements(x.Type(), errorIface()) })
+		other := g.If.Block().Succs[0]
+		if g.Branch {
+			other = g.If.Block().Succs[1]
+		}
+		dies := false
+		for _, x := range other.Instrs {
+			switch x.(type) {
+			case *ssa.Panic:
+				dies = true // whatever was tested, failing it is fatal
+			case *ssa.Return:
+				dies = dies || isErrTest // (if err != nil { return …, err } ends the function just as well)
 			}
-			dies := false
-			for _, x := range other.Instrs {
-				switch x.(type) {
-				case *ssa.Panic, *ssa.Return:
-					dies = true // (if err != nil { return …, err } ends the function just as well)
-				}
-			}
-			if dies {
-				continue
-			}
+		}
+		if dies {
+			continue
 		}
 		out = append(out, g)
 	}
